@@ -477,13 +477,13 @@ class FeedReader:
         return await self.read(-1)
 
 
-def _prompt_case(which, sizes, chunk):
+def _prompt_case(which, sizes, chunk, fill=b"x"):
     from indi.routing import Router, Device
 
     async def main(loop):
         got = []
         probs = []
-        msgs = [('<setTextVector device="CAM" name="CFG" state="Ok"><oneText name="A">%s</oneText></setTextVector>' % ("x" * n)).encode() for n in sizes]
+        msgs = [b'<setTextVector device="CAM" name="CFG" state="Ok"><oneText name="A">' + (fill * n)[:n] + b'</oneText></setTextVector>' for n in sizes]
         if which == "client":
             from indi.transport.client import tcp as ctcp
             rd = FeedReader()
@@ -523,6 +523,9 @@ def _prompt_case(which, sizes, chunk):
                 if rd.waiting and not rd.pending:
                     break
             want = sum(1 for e in ends if e <= fed)
+            if t.done() and not t.cancelled():
+                probs.append("%s connection, text bytes %r fed in pieces of %d: the receive loop ended after %d bytes (%r)" % (which, fill, chunk, fed, t.exception()))
+                break
             if len(got) != want:
                 probs.append("%s connection, messages of %s bytes fed in pieces of %d: after %d bytes %d complete message(s) had arrived but %d were delivered when the connection waited for more data"
                              % (which, [len(m) for m in msgs], chunk, fed, want, len(got)))
@@ -537,6 +540,15 @@ def transport_prompt(w):
     """bounded: three receive loops x message lengths around the 1024-byte read size x feeding granularity {exact multiples of 1024, 1024, 512, 97}"""
     probs, cases = [], 0
     base = len('<setTextVector device="CAM" name="CFG" state="Ok"><oneText name="A"></oneText></setTextVector>')
+    # any byte may arrive in a text (the wire is Latin-1 for the receiver): high bytes, a UTF-8 pair, a lone continuation byte -- whole and split
+    for which in ("client", "tcp", "tty"):
+        for fill in (b"\xe9\xff", b"\xc3\xa9", b"a\xa9\xc3"):
+            for chunk in (4096, 1):
+                cases += 1
+                probs += _prompt_case(which, [7, 12], chunk, fill=fill)
+    if probs:
+        return {"cases": cases, "reproduced": True, "detail": "; ".join(probs[:3]),
+                "failures": [{"detail": p_, "reproduced": True, "witness": {"replay_kind": "transport.prompt"}} for p_ in probs[:3]]}
     for which in ("client", "tcp", "tty"):
         adj = 0 if which == "client" else len(b"newTextVector") * 2 - len(b"setTextVector") * 2 - len(b' state="Ok"')
         for total in (1024, 2048, 3072, 1023, 1025, 500):
